@@ -595,14 +595,15 @@ recorded findings: `knownDtypeKept` (a numeric field keeps another numeric dtype
 `construct_whitelists_tight` shows that no listed cell is stale. -/
 theorem construct_converts_or_raises : Gen.C19.constructTable.all constructCellOK = true := by decide +kernel
 
-/-- the census of the excepted cells: of the 230 cells, 20 keep another numeric dtype (`knownDtypeKept`) and 31 store
-the argument unconverted (`knownUnconverted`); the other 179 raise or hold exactly the declared class -/
+/-- the census of the excepted cells: of the 300 cells (10 field kinds × 30 argument forms), 20 keep another numeric
+dtype (`knownDtypeKept`) and 42 store the argument unconverted (`knownUnconverted`); the other 238 raise or hold
+exactly the declared class -/
 theorem construct_census :
     let t := Gen.C19.constructTable
     let conforms := t.filter (fun r => r.2.2 == "raise" || (allowedClasses r.1).contains r.2.2)
     let kept := t.filter (fun r => r.2.2 != "raise" && !(allowedClasses r.1).contains r.2.2 && knownDtypeKept.contains r)
     let unconv := t.filter (fun r => r.2.2 != "raise" && !(allowedClasses r.1).contains r.2.2 && !knownDtypeKept.contains r)
-    (t.length, conforms.length, kept.length, unconv.length) = (230, 179, 20, 31) := by
+    (t.length, conforms.length, kept.length, unconv.length) = (300, 238, 20, 42) := by
   decide +kernel
 
 /-- the two lists of excepted cells are tight: every listed cell occurs in the table re-extracted from the running
@@ -620,7 +621,8 @@ theorem construct_table_complete :
       (["str", "sid", "int", "float", "bool", "opt", "li", "dna", "strand", "inner"].flatMap (fun k =>
         ["list_str", "list_int", "list_float", "list_bool", "list_none", "nd_int", "nd_float", "nd_bool", "nd_str",
          "nd_obj_int", "series_obj_int", "actg_ragged", "actg_flat", "encoded_ragged", "dna_ragged", "string_array", "ragged_int", "list_list_int", "table", "list_entries",
-         "series_str", "series_int", "strand_str"].map (fun f => (k, f)))) := by decide +kernel
+         "series_str", "series_int", "strand_str",
+         "list_bytes", "nd_bytes", "nd_obj_str", "nd_obj_bytes", "list_npstr", "sid_raw", "series_bytes"].map (fun f => (k, f)))) := by decide +kernel
 
 theorem takeWhile_all {β} (p : β → Bool) (l : List β) (h : ∀ x ∈ l, p x = true) : l.takeWhile p = l := by
   induction l with
